@@ -280,6 +280,7 @@ class Run:
         rejection never hides the others (up to max_rej per chunk)."""
         rejections, deviations = [], []
         items = list(items)
+        retries = 0
         while items:
             tf = tempfile.NamedTemporaryFile("w", suffix=".ndjson", dir=self.work, delete=False)
             tf.write("".join(l for _, l in items))
@@ -300,6 +301,12 @@ class Run:
             if rc == 0 and "No error has been found" in out:
                 return set(t for t, _ in items), rejections, deviations
             m = re.search(r'<<"REJECTED_AT", (\d+)>>', out)
+            if not m and retries < 2:
+                # TLC itself failed (seen under heavy machine load: exit 255 without a verdict): try again
+                retries += 1
+                self.log("validate %s: TLC ended with rc=%d and no verdict; retry %d" % (module, rc, retries))
+                time.sleep(2 * retries)
+                continue
             if not m:
                 errs = [x for x in out.splitlines() if x.startswith("Error") or "Exception" in x or "Attempted" in x or "violated" in x]
                 self.log("\n".join(errs[:20]))
